@@ -455,6 +455,8 @@ func TestCheck(t *testing.T) {
 	setupKnown(rec, k)
 	rec.Corpus(t)
 
+	kpar := evid.NewKind(rec, "concurrent", evid.ParallelJudge(judge))
+	var pool []Case
 	rec.Rapid(t, "signrecover", rec.N(1200, 6000), func(rt *rapid.T) {
 		c := Case{Key: genKey(rt), Direct: rapid.Bool().Draw(rt, "direct"), ChainID: genChainID(rt)}
 		if c.Direct {
@@ -469,7 +471,21 @@ func TestCheck(t *testing.T) {
 		c.FlipBit = rapid.IntRange(0, 511).Draw(rt, "flipBit")
 		c.MsgFlip = rapid.IntRange(-1, 4096*8).Draw(rt, "msgFlip")
 		nt, cl := classify(c)
+		if len(pool) < 96 && len(c.Msg) >= 2048 {
+			pool = append(pool, c)
+		}
 		k.Check(rt, c, nt, cl...)
+	})
+
+	// the same cases from many goroutines at once: verdicts must not depend on concurrent callers
+	t.Run("concurrent", func(t *testing.T) {
+		for lo := 0; lo+8 <= len(pool); lo += 24 {
+			hi := lo + 24
+			if hi > len(pool) {
+				hi = len(pool)
+			}
+			kpar.Must(t, evid.Batch[Case]{Cases: pool[lo:hi], Workers: 8, Rounds: 4}, true, "concurrent-batch")
+		}
 	})
 
 	// exhaustive V sweeps
@@ -516,5 +532,6 @@ func TestReplay(t *testing.T) {
 	setupKnown(rec, k)
 	_ = k
 	evid.NewKind(rec, "vsweep", judgeSweep)
+	evid.NewKind(rec, "concurrent", evid.ParallelJudge(judge))
 	rec.Replay(t)
 }
